@@ -132,11 +132,18 @@ fn main() {
     let _ = std::fs::create_dir_all(&status_dir);
     let ws_reply: Arc<Mutex<Vec<Vec<u8>>>> = Arc::new(Mutex::new(vec![simple_response(200, &[("Content-Type", "application/json")], &good_status())]));
     let ws_close = Arc::new(std::sync::atomic::AtomicBool::new(false));
+    // the host answers the next status polls this many milliseconds late (0 = at once)
+    let ws_delay_ms = Arc::new(std::sync::atomic::AtomicU64::new(0));
     {
         let r = ws_reply.clone();
         let cl = ws_close.clone();
+        let dl = ws_delay_ms.clone();
         w.hosts.ws.set_responder(Arc::new(move |m: &Msg, _c, _i| {
             if m.target().starts_with("/secure-channel/status") {
+                let d = dl.load(std::sync::atomic::Ordering::SeqCst);
+                if d > 0 {
+                    std::thread::sleep(Duration::from_millis(d));
+                }
                 if cl.load(std::sync::atomic::Ordering::SeqCst) {
                     return Action::ReplyClose(r.lock().unwrap().clone());
                 }
@@ -176,6 +183,8 @@ fn main() {
         HostReply { label: String, segs: Vec<Vec<u8>> },
         /// like HostReply but the host closes the connection after writing (declared length never arrives)
         HostReplyClose { segs: Vec<Vec<u8>> },
+        /// the host answers status polls correctly but late: each poll round outlasts the key keeper's poll interval
+        HostReplySlow { delay_ms: u64 },
         /// a rule document (as the host could deliver it) in force for IMDS, then a request from alice
         Rules { doc: Value },
         /// wake-up notifications (what a `/provision` query with the notify header sends) arriving at each
@@ -327,6 +336,10 @@ fn main() {
             }
         }
     }
+    // (5b) a slow host: status answers 2x, 4x, 20x the poll interval late
+    for delay_ms in [30u64, 60, 300] {
+        cases.push((json!({"kind": "host-status-reply-late", "delay_ms": delay_ms, "poll_interval_ms": 15}), Case::HostReplySlow { delay_ms }));
+    }
     // (6) wake-up notifications at every 0.125 ms offset across (and past) the key keeper's 15 ms poll interval
     for round in 0..if thorough { 8 } else { 3 } {
         let offsets_us: Vec<u64> = (0..=160u64).map(|i| i * 125).collect();
@@ -447,6 +460,20 @@ fn main() {
                 let _ = env.provision_query();
                 std::thread::sleep(Duration::from_millis(20));
             }
+            Case::HostReplySlow { delay_ms } => {
+                *env.ws_reply.lock().unwrap() = vec![simple_response(200, &[("Content-Type", "application/json")], &good_status())];
+                ws_delay_ms.store(*delay_ms, std::sync::atomic::Ordering::SeqCst);
+                let mut ok = true;
+                for _ in 0..3 {
+                    ok &= env.poll_key_keeper();
+                }
+                ws_delay_ms.store(0, std::sync::atomic::Ordering::SeqCst);
+                if !ok {
+                    res.violation("key-keeper-stopped-polling", &format!("the key keeper stopped polling while the host answered its status polls {delay_ms} ms late"), desc.clone());
+                }
+                let _ = env.provision_query();
+                std::thread::sleep(Duration::from_millis(20));
+            }
             Case::HostReply { segs, .. } => {
                 *env.ws_reply.lock().unwrap() = segs.clone();
                 let polled = env.poll_key_keeper();
@@ -507,7 +534,7 @@ fn main() {
     res.cov("distinct_nontrivial", nontrivial.len() as u64);
     res.cov("panics_recorded", panics_total);
     res.cov("exhaustive", true);
-    res.cov("rule", "caller command lines/exe names made of 2-, 3- and 4-byte UTF-8 characters behind 0..w-1 ASCII bytes (every alignment against the byte-offset cuts at 512/1024/4096) x allowed/denied; callers whose executable path is not valid UTF-8 (directory, file name, both); callers whose main thread has exited (executable and command line unreadable), that are gone, or whose recorded pid is 0 / 2^32-1; requests with each header-value byte (0x09, 0x7f, 0x80..0xff; quick: 6 representatives) single and repeated, URLs/queries of 1000..65000 bytes, 90 repeated headers, a 30000-byte header value, requests without / with an empty / with two Host headers, HTTP/1.0, OPTIONS *, CONNECT (authority-form), absolute-form targets; query values with truncated / invalid percent escapes while rules with query parameters are in force; host replies to the key keeper's status poll over 9 content types x bodies (empty, 1-3 bytes, valid, multi-byte bodies at every alignment) x content-length / chunked with a 1- or 3-byte first chunk (odd UTF-16 frames) / a declared Content-Length of 2^63 or 2^40 with the connection closed; 16 rule documents with dangling, duplicate, missing and empty names in force while matching requests arrive; wake-up notifications to the key keeper at every 0.125 ms offset across its poll interval; the cases run in a supervised child process, so a death of the whole process (abort, allocation failure) is attributed to the case in progress; after every case: no panic anywhere in the process, the request got an HTTP response, and listener, /provision, key keeper and status task are still live".to_string());
+    res.cov("rule", "caller command lines/exe names made of 2-, 3- and 4-byte UTF-8 characters behind 0..w-1 ASCII bytes (every alignment against the byte-offset cuts at 512/1024/4096) x allowed/denied; callers whose executable path is not valid UTF-8 (directory, file name, both); callers whose main thread has exited (executable and command line unreadable), that are gone, or whose recorded pid is 0 / 2^32-1; requests with each header-value byte (0x09, 0x7f, 0x80..0xff; quick: 6 representatives) single and repeated, URLs/queries of 1000..65000 bytes, 90 repeated headers, a 30000-byte header value, requests without / with an empty / with two Host headers, HTTP/1.0, OPTIONS *, CONNECT (authority-form), absolute-form targets; query values with truncated / invalid percent escapes while rules with query parameters are in force; host replies to the key keeper's status poll over 9 content types x bodies (empty, 1-3 bytes, valid, multi-byte bodies at every alignment) x content-length / chunked with a 1- or 3-byte first chunk (odd UTF-16 frames) / a declared Content-Length of 2^63 or 2^40 with the connection closed; correct status answers that come 2x / 4x / 20x the poll interval late; 16 rule documents with dangling, duplicate, missing and empty names in force while matching requests arrive; wake-up notifications to the key keeper at every 0.125 ms offset across its poll interval; the cases run in a supervised child process, so a death of the whole process (abort, allocation failure) is attributed to the case in progress; after every case: no panic anywhere in the process, the request got an HTTP response, and listener, /provision, key keeper and status task are still live".to_string());
     res.assume("a panic is attributed to the case during or directly after which it is recorded");
     std::process::exit(res.finish());
 }
